@@ -104,6 +104,90 @@ theorem write_read_share_replica_zones (cfg : Cfg) (d : Desc) (toks toks' : List
   exact ⟨x, hA.2.1 x hxA, hack x hxA, hall _ hxZ x hxR rfl⟩
 
 
+/-! ### What a successful `GetReplicationSetForOperation` guarantees (used by C11) -/
+
+/-- The returned instances are registered instances; they are pairwise distinct whenever the ids of the
+descriptor are (the C05 invariant); the tolerances are in range. -/
+theorem getAll_ok_facts (cfg : Cfg) (d : Desc) (toks : List Nat) (op : Op) (now : Int) (R : RSetAll)
+    (h : getAll cfg d toks op now = .ok R) :
+    (∀ i ∈ R.instances, i ∈ d) ∧ ((d.map (·.id)).Nodup → R.instances.Nodup) ∧ R.zoneAware = cfg.zoneAware ∧
+    (cfg.zoneAware = true → R.maxErrors = 0) ∧
+    (cfg.zoneAware = false → R.maxUnavailableZones = 0 ∧ (1 ≤ cfg.rf → R.maxErrors < R.instances.length)) :=
+  let f := PfC02.getAll_ok_facts cfg d toks op now R h
+  ⟨PfC02.getAll_mem cfg d toks op now R h, fun hid => PfC02.getAll_nodup cfg d toks op now R hid h, f.2.1, f.2.2.1, f.2.2.2⟩
+
+/-- Distinctness of the READ set does need distinct ids: a descriptor listing the same entry twice
+yields a successful read set with a repeated instance (the write lookup of the same descriptor does
+not: `PC01.get_ok_nodup` needs no well-formedness). -/
+theorem getAll_dup_witness :
+    getAll { rf := 1, zoneAware := false } [{ id := "x", tokens := [5] }, { id := "x", tokens := [5] }] [5, 5] opRead 0
+      = .ok { instances := [{ id := "x", tokens := [5] }, { id := "x", tokens := [5] }], maxErrors := 0,
+              maxUnavailableZones := 0, zoneAware := false } ∧
+    ¬ ([{ id := "x", tokens := [5] }, { id := "x", tokens := [5] }] : List Inst).Nodup := by
+  refine ⟨by decide, by decide⟩
+
+/-- Every entry handed to `DoBatch` that stems from a lookup (`.err`, or the result of a successful
+`Get` under some numbering of its instances) satisfies C10's `GoodGets`. -/
+theorem goodGets_of_lookups (gets : List C10.GetRes)
+    (h : ∀ g ∈ gets, g = .err ∨ ∃ (cfg : Cfg) (d : Desc) (toks : List Nat) (key : Nat) (op : Op) (now : Int) (W : RSet)
+        (aid : Inst → Nat), get cfg d toks key op now = .ok W ∧ g = .ok (W.instances.map aid) W.maxErrors) :
+    PfC10.GoodGets gets := by
+  intro g hg addrs me hgm
+  rcases h g hg with rfl | ⟨cfg, d, toks, key, op, now, W, aid, hW, rfl⟩
+  · cases hgm
+  · cases hgm
+    have := (PfC01.get_ok_facts cfg d toks key op now W hW).2.2.1
+    simp only [List.length_map]
+    exact ⟨by omega, by omega⟩
+
+/-! ### End to end, from a well-formed descriptor
+
+The same two theorems with the distinctness premises discharged: `W.instances.Nodup` holds for every
+successful `Get` (`PC01.get_ok_nodup` = `PfC01.get_ok_facts`), `R.instances.Nodup` (a field of `PfC11.Corresponds`) follows from
+the distinct ids of a well-formed descriptor (`getAll_ok_facts`). -/
+
+theorem write_read_share_replica_flat_wf (cfg : Cfg) (d : Desc) (toks toks' : List Nat) (key : Nat) (now : Int)
+    (W : RSet) (R : RSetAll) (hwf : WFRing d) (hza : cfg.zoneAware = false)
+    (hW : get cfg d toks key opWrite now = .ok W) (hR : getAll cfg d toks' opRead now = .ok R)
+    {icount : Int} {ca : Option Nat} {gets : List C10.GetRes} {p : C10.Prep} {out : Nat → C10.Outcome}
+    {wevs : List C10.Ev} {ws : C10.St}
+    (hg : PfC10.GoodGets gets) (hp : C10.prepare icount ca gets = .ok p)
+    (hwr : C10.run (C10.initSt p out) wevs = some ws) (hd : ws.ret = some .done ∨ 1 ≤ ws.nDone)
+    (i : Nat) (aid : Inst → Nat)
+    (hinj : ∀ x ∈ W.instances, ∀ y ∈ W.instances, aid x = aid y → x = y)
+    (hi : gets[i]? = some (.ok (W.instances.map aid) W.maxErrors))
+    {c : C11.Cfg} {order : List Nat} {pre : Bool} {revs : List C11.Ev} {rst : C11.St} {zid : String → Nat}
+    (hzinj : ∀ x ∈ R.instances, ∀ y ∈ R.instances, zid x.zone = zid y.zone → x.zone = y.zone)
+    (hzones : c.zones = R.instances.map (fun x => zid x.zone)) (hme : c.maxErrors = R.maxErrors)
+    (hmu : c.maxUnavail = R.maxUnavailableZones)
+    (hrr : C11.run c (C11.init c order pre) revs = some rst)
+    (hzm : c.zoneMode = false) {rs : List Nat} (hm : rst.main = .retOk rs) :
+    ∃ x, x ∈ W.instances ∧ PfC10.Acked p ws i (aid x) ∧ x ∈ PfC11.answered R rs :=
+  write_read_share_replica_flat cfg d toks toks' key now W R hza hW hR hg hp hwr hd i aid hinj
+    (PfC01.get_ok_facts cfg d toks key opWrite now W hW).2.1 hi
+    ⟨(getAll_ok_facts cfg d toks' opRead now R hR).2.1 hwf.1, hzinj, hzones, hme, hmu⟩ hrr hzm hm
+
+theorem write_read_share_replica_zones_wf (cfg : Cfg) (d : Desc) (toks toks' : List Nat) (key : Nat) (now : Int)
+    (W : RSet) (R : RSetAll) (hwf : WFRing d) (hza : cfg.zoneAware = true) (hz : ∀ i ∈ d, i.zone ≠ "")
+    (hW : get cfg d toks key opWrite now = .ok W) (hR : getAll cfg d toks' opRead now = .ok R)
+    {icount : Int} {ca : Option Nat} {gets : List C10.GetRes} {p : C10.Prep} {out : Nat → C10.Outcome}
+    {wevs : List C10.Ev} {ws : C10.St}
+    (hg : PfC10.GoodGets gets) (hp : C10.prepare icount ca gets = .ok p)
+    (hwr : C10.run (C10.initSt p out) wevs = some ws) (hd : ws.ret = some .done ∨ 1 ≤ ws.nDone)
+    (i : Nat) (aid : Inst → Nat)
+    (hinj : ∀ x ∈ W.instances, ∀ y ∈ W.instances, aid x = aid y → x = y)
+    (hi : gets[i]? = some (.ok (W.instances.map aid) W.maxErrors))
+    {c : C11.Cfg} {order : List Nat} {pre : Bool} {revs : List C11.Ev} {rst : C11.St} {zid : String → Nat}
+    (hzinj : ∀ x ∈ R.instances, ∀ y ∈ R.instances, zid x.zone = zid y.zone → x.zone = y.zone)
+    (hzones : c.zones = R.instances.map (fun x => zid x.zone)) (hme : c.maxErrors = R.maxErrors)
+    (hmu : c.maxUnavail = R.maxUnavailableZones)
+    (hrr : C11.run c (C11.init c order pre) revs = some rst)
+    (hzm : c.zoneMode = true) {rs : List Nat} (hm : rst.main = .retOk rs) :
+    ∃ x, x ∈ W.instances ∧ PfC10.Acked p ws i (aid x) ∧ x ∈ PfC11.answered R rs :=
+  write_read_share_replica_zones cfg d toks toks' key now W R hza hz hW hR hg hp hwr hd i aid hinj
+    (PfC01.get_ok_facts cfg d toks key opWrite now W hW).2.1 hi
+    ⟨(getAll_ok_facts cfg d toks' opRead now R hR).2.1 hwf.1, hzinj, hzones, hme, hmu⟩ hrr hzm hm
+
 /-! ### The arithmetic is tight (regression witnesses, not part of the claim) -/
 
 def r3 : Desc := [ { id := "a", tokens := [10], zone := "z1" }, { id := "b", tokens := [20], zone := "z2" },
@@ -147,5 +231,68 @@ example : ∀ i ∈ r3, i.zone ≠ "" := by decide
 def r4 : Desc := r3 ++ [ { id := "d", tokens := [40], zone := "z4", ts := -100000 }, { id := "e", tokens := [50], zone := "z4" } ]
 example : (getAll za3 r4 (sortedTokens r4) opRead 0).toOption.map (fun r => (r.instances.map (·.id), r.maxUnavailableZones))
     = some (["a", "b", "c"], 0) := by decide
+
+/-! ### Non-vacuity of the end-to-end theorems: one concrete ring, one concrete `DoBatch` schedule, one
+concrete `DoUntilQuorum` schedule meet ALL premises of `write_read_share_replica_flat_wf` / `_zones_wf` -/
+
+/-- three ACTIVE instances in three zones, numbered 0,1,2 by their heartbeat second (`PC10.exAid`) -/
+def e3 : Desc := [ { id := "a", ts := 0, tokens := [10], zone := "z0" }, { id := "b", ts := 1, tokens := [20], zone := "z1" },
+                   { id := "c", ts := 2, tokens := [30], zone := "z2" } ]
+def eW : RSet := { instances := e3, maxErrors := 1 }
+def eRflat : RSetAll := { instances := e3, maxErrors := 1, maxUnavailableZones := 0, zoneAware := false }
+def eRzone : RSetAll := { instances := e3, maxErrors := 0, maxUnavailableZones := 1, zoneAware := true }
+def eZid (z : String) : Nat := if z = "z0" then 0 else if z = "z1" then 1 else 2
+def eCflat : C11.Cfg := { zones := [0, 1, 2], maxErrors := 1, maxUnavail := 0, zoneAware := false, minimize := false,
+                          hedging := false, hasTerm := false, cancelAll := true }
+def eCzone : C11.Cfg := { zones := [0, 1, 2], maxErrors := 0, maxUnavail := 1, zoneAware := true, minimize := false,
+                          hedging := false, hasTerm := false, cancelAll := true }
+/-- all three requests start; instances 1 and 2 answer, which is a quorum; instance 0 never answers -/
+def eRevs : List C11.Ev := [.begin 0, .begin 1, .begin 2, .finish 1 .ok, .recv, .finish 2 .ok, .recv]
+
+set_option linter.defProp false   -- helper facts of the example below, deliberately not counted as obligations
+
+def eGood : PfC10.GoodGets PC10.exGets := by
+  intro g hg addrs me h
+  simp only [PC10.exGets, List.mem_cons, List.mem_nil_iff, or_false] at hg
+  rcases hg with rfl | rfl <;> cases h <;> decide
+
+def eWrite : ∃ ws, C10.run (C10.initSt PC10.exPrep PC10.exOut) PC10.exSchedule = some ws ∧ ws.ret = some .done := by
+  have h : ((C10.run (C10.initSt PC10.exPrep PC10.exOut) PC10.exSchedule).map fun s => s.ret) = some (some .done) := by decide
+  cases hr : C10.run (C10.initSt PC10.exPrep PC10.exOut) PC10.exSchedule with
+  | none => rw [hr] at h; cases h
+  | some ws => rw [hr] at h; exact ⟨ws, rfl, by simpa using h⟩
+
+def eRead (c : C11.Cfg) (hc : c = eCflat ∨ c = eCzone) :
+    ∃ rst, C11.run c (C11.init c [] false) eRevs = some rst ∧ rst.main = .retOk [1, 2] := by
+  have h : ((C11.run c (C11.init c [] false) eRevs).map fun s => s.main) = some (.retOk [1, 2]) := by
+    rcases hc with rfl | rfl <;> decide +kernel
+  cases hr : C11.run c (C11.init c [] false) eRevs with
+  | none => rw [hr] at h; cases h
+  | some rst => rw [hr] at h; exact ⟨rst, rfl, by simpa using h⟩
+
+/-- flat: key 5 is written through `DoBatch` (key 0 of `PC10.exGets`; replicas 1 = b and 2 = c acknowledge,
+replica 0 = a fails), the ring is read through `DoUntilQuorum` (b and c answer): they share a replica. -/
+example : ∃ ws rst x, C10.run (C10.initSt PC10.exPrep PC10.exOut) PC10.exSchedule = some ws ∧
+    C11.run eCflat (C11.init eCflat [] false) eRevs = some rst ∧
+    x ∈ eW.instances ∧ PfC10.Acked PC10.exPrep ws 0 (PC10.exAid x) ∧ x ∈ PfC11.answered eRflat [1, 2] := by
+  obtain ⟨ws, hws, hret⟩ := eWrite
+  obtain ⟨rst, hrst, hmain⟩ := eRead eCflat (Or.inl rfl)
+  obtain ⟨x, h1, h2, h3⟩ := write_read_share_replica_flat_wf { rf := 3, zoneAware := false } e3 (sortedTokens e3)
+    (sortedTokens e3) 5 2 eW eRflat (by decide) rfl (by decide) (by decide) eGood
+    (show C10.prepare 4 none PC10.exGets = .ok PC10.exPrep by decide) hws (Or.inl hret) 0 PC10.exAid (by decide) (by decide)
+    (zid := eZid) (by decide) (by decide) rfl rfl hrst (by decide) hmain
+  exact ⟨ws, rst, x, hws, hrst, h1, h2, h3⟩
+
+/-- zone-aware: same write, the read may miss one zone (z0 never answers) -/
+example : ∃ ws rst x, C10.run (C10.initSt PC10.exPrep PC10.exOut) PC10.exSchedule = some ws ∧
+    C11.run eCzone (C11.init eCzone [] false) eRevs = some rst ∧
+    x ∈ eW.instances ∧ PfC10.Acked PC10.exPrep ws 0 (PC10.exAid x) ∧ x ∈ PfC11.answered eRzone [1, 2] := by
+  obtain ⟨ws, hws, hret⟩ := eWrite
+  obtain ⟨rst, hrst, hmain⟩ := eRead eCzone (Or.inr rfl)
+  obtain ⟨x, h1, h2, h3⟩ := write_read_share_replica_zones_wf { rf := 3, zoneAware := true } e3 (sortedTokens e3)
+    (sortedTokens e3) 5 2 eW eRzone (by decide) rfl (by decide) (by decide) (by decide) eGood
+    (show C10.prepare 4 none PC10.exGets = .ok PC10.exPrep by decide) hws (Or.inl hret) 0 PC10.exAid (by decide) (by decide)
+    (zid := eZid) (by decide) (by decide) rfl rfl hrst (by decide) hmain
+  exact ⟨ws, rst, x, hws, hrst, h1, h2, h3⟩
 
 end PC02
